@@ -26,7 +26,12 @@ REQUIRED = ["accepted_create_sound", "accepted_create_signed_by_did_key", "accep
             "fact_update_lookup_error_branch", "fact_service_type_seen_set_keys",
             # publishing path (NutsProofs.Props.C09Manager): Manager.Update / resolveControllerWithKey
             "managerUpdate_sound", "managerUpdate_deactivated_refused", "managerUpdate_needs_controller_key",
-            "firstOwnedKey_sound", "firstOwnedKey_none", "fact_manager_update_steps", "fact_manager_key_choice"]
+            "firstOwnedKey_sound", "firstOwnedKey_none", "fact_manager_update_steps", "fact_manager_key_choice",
+            # change-log side (NutsProofs.Props.C09Commit): Commit dispatch, onUpdate, onCreate, Deactivate, key naming / NewDocument
+            "managerUpdate_eq_tail", "publishTail_sound", "managerOnUpdate_sound", "managerOnUpdate_deactivated_publishes_nothing",
+            "onUpdate_agrees_with_update", "managerOnCreate_sound", "commit_template_kind", "created_template_accepted_iff",
+            "namedVM_passes_validator", "newDocument_accepted", "deactivationDoc_is_deactivated",
+            "fact_commit_dispatch", "fact_on_update_steps", "fact_on_create_template", "fact_kid_naming"]
 
 FULL_DOC_RE = re.compile(r"doc=(\S+?)\{Context:\[[^\]]*\];Controller:\[([^\]]*)\];VerificationMethod:\[([^\]]*)\];Authentication:\[[^\]]*\];"
                          r"AssertionMethod:\[[^\]]*\];CapabilityInvocation:\[([^\]]*)\];CapabilityDelegation:\[[^\]]*\];KeyAgreement:\[[^\]]*\];Service:\[([^\]]*)\]")
@@ -177,6 +182,24 @@ def stored_service_type_twice(obs):
     return None
 
 
+def latest_doc_deactivated(obs):
+    """DIDs whose LATEST version (Resolve with AllowDeactivated) is a deactivated DOCUMENT: no controller, no capabilityInvocation"""
+    parts = obs.split(" || ")
+    table = {}
+    for t in parts[1:]:
+        k, _, v = t.partition("=")
+        table[k] = v
+    out, cur = set(), None
+    for seg in parts[0].split(" | "):
+        if seg.startswith("DID "):
+            cur = seg[4:]
+        elif seg.startswith("ad:") and cur:
+            m = FULL_DOC_RE.search(table.get(seg[3:], ""))
+            if m and m.group(2) == "" and m.group(4) == "":
+                out.add(cur)
+    return out
+
+
 def wellformed_nuts(doc):
     """the Nuts method rules of the property text, re-implemented on the parsed view (independent of model and code)"""
     seen = set()
@@ -209,7 +232,7 @@ def embedded_illformed(doc):
 
 def run(ctx):
     ctx.facts()
-    thms = ctx.build_and_audit(["NutsProofs.Props.C09", "NutsProofs.Props.C09Entry", "NutsProofs.Props.C09Manager"])
+    thms = ctx.build_and_audit(["NutsProofs.Props.C09", "NutsProofs.Props.C09Entry", "NutsProofs.Props.C09Manager", "NutsProofs.Props.C09Commit"])
     for r in REQUIRED:
         if not any(t.endswith("Props." + r) for t in thms):
             ctx.oblige("thm-present:" + r, False, "theorem missing or its module does not build")
@@ -272,6 +295,7 @@ def run(ctx):
     # ---- direct property oracles on the implementation's own outputs
     kinds, classes, labels = Counter(), Counter(), Counter()
     distinct = set()
+    own_created = Counter()   # how the ambassador answered the creations the node published itself
     mgr_classes, published = Counter(), Counter()   # Manager.Update outcomes; how the ambassador answered what the node published
     entry_hits = Counter()  # executed failing store calls per fault kind
     entry = Counter()      # entry layer: (event type class, payload type class, fault) -> outcome kind
@@ -345,11 +369,41 @@ def run(ctx):
                 report("unparseable-line", "harness output line not understood", i)
                 continue
             mcls, mkid, _mprevs, mrest = mm.groups()
-            mgr_classes[mcls] += 1
+            via = op.get("via", "") or "update"
+            mgr_classes[mcls if via == "update" else via + ":" + mcls] += 1
             if "NONDETERMINISTIC" in mrest:
                 report("manager-nondeterministic", "Manager.Update chose differently on the replay node: " + mrest.strip(), i)
-            if mcls.startswith("panic") or "MISMATCH" in mcls:
-                report("manager-" + re.sub(r"[^a-zA-Z:-]", "", mcls)[:60], "Manager.Update: " + mcls, i)
+            if mcls.startswith("panic") and via == "created" and "onCreate:VerificationMethod[0]" in mcls:
+                pass   # the change log held a document without verification method: index expression in onCreate (modelled; not a C09 matter)
+            elif mcls.startswith("panic") or "MISMATCH" in mcls:
+                report("manager-" + re.sub(r"[^a-zA-Z:-]", "", mcls)[:60], "Manager (" + via + "): " + mcls, i)
+            if via == "bogus" and mcls == "ok":
+                report("commit-publishes-for-an-unknown-change-type", "Manager.Commit handed a transaction to the network for a change type it does not know", i)
+            if via == "updated" and mcls == "ok" and mkid is None:
+                # onUpdate answered nil and published nothing: only a deactivated DOCUMENT may be skipped silently
+                if op["id"] not in latest_doc_deactivated(cur_obs):
+                    report("onUpdate-silently-drops-an-update", "Manager.onUpdate answered nil without publishing although the latest version of " + op["id"] + " is not deactivated", i)
+                continue
+            if via in ("created", "new") and mcls == "ok":
+                # ---- creation template: kid and attached key are those of the document's FIRST verification method, no prevs
+                km = re.search(r" key=(\S+)", mrest)
+                akey = km.group(1) if km else ""
+                vms = (op.get("doc") or {}).get("vms", [])
+                if not vms or akey != vms[0]["key"] or mkid != vms[0]["id"] or _mprevs != "":
+                    report("creation-template-not-from-the-first-verification-method",
+                           f"Manager.onCreate published kid={mkid} attached key={akey} prevs=[{_mprevs}] for a document whose first method is "
+                           + (vms[0]["id"] + " with key " + vms[0]["key"] if vms else "missing"), i)
+                if via == "new":
+                    nm = re.search(r" new=(\S+)", mrest)
+                    did_ = "did:nuts:" + op.get("b58", "?")
+                    vmid = did_ + "#" + op.get("key", "?")
+                    want = f"{did_}|{vmid}|1,1,1,1,1|ctrl=0|svc=0|sub={vmid}"
+                    if not nm or nm.group(1) != want:
+                        report("new-document-not-named-by-the-key-thumbprint",
+                               "Manager.NewDocument / didSubKIDNamingFunc: " + (nm.group(1) if nm else "?") + " but the key's own RFC 7638 thumbprint gives " + want, i)
+                    if akey != op.get("key"):
+                        report("new-document-attaches-another-key", f"the creation of {did_} attaches {akey}, the key store generated {op.get('key')}", i)
+                continue
             if mcls == "ok":
                 if mkid not in op.get("has", []):
                     report("manager-signs-with-a-key-the-node-does-not-hold", f"Manager.Update published with kid {mkid}, which the key store does not have", i)
@@ -362,7 +416,7 @@ def run(ctx):
                     report("manager-signs-with-a-key-no-controller-lists",
                            f"Manager.Update published an update of {op['id']} signed with {mkid}, which no stored version of the DID (self-controlled) "
                            "or of a controller lists for capabilityInvocation", i)
-                if op["id"] in latest_deactivated(cur_obs):
+                if op["id"] in (latest_doc_deactivated(cur_obs) if via == "updated" else latest_deactivated(cur_obs)):
                     report("manager-updates-a-deactivated-did", "Manager.Update published an update of a DID whose latest version is deactivated", i)
                 wf = wellformed_nuts(op["doc"]) if op.get("doc") else "unparseable"
                 if wf:
@@ -372,6 +426,12 @@ def run(ctx):
             continue
         if op["raw"]["kind"] == "mgr:published":
             published[line.split(" ")[2] if line.count(" ") >= 2 else "?"] += 1
+        if op["raw"]["kind"] in ("mgr:new-created", "mgr:created"):
+            own_created[op["raw"]["kind"] + " -> " + (line.split(" ")[2] if line.count(" ") >= 2 else "?")] += 1
+            if op["raw"]["kind"] == "mgr:new-created" and line.count(" ") >= 2 and line.split(" ")[2] != "ok":
+                # Lean: newDocument_accepted - the only refusal left is the store's
+                report("own-creation-refused-by-the-ambassador",
+                       "the DID document made by Manager.NewDocument and published by Commit(created) was not accepted by the receiving ambassador: " + line.split(" ")[2], i)
         if "cb" in op:   # per-delivery flag (false is omitted by the harness); older replay files: history-level mode
             verified = bool(op.get("verified", False))
         else:
@@ -572,6 +632,7 @@ def run(ctx):
                                      "executed_failing_store_calls": dict(sorted(entry_hits.items())),
                                      "manager_update_outcomes": dict(sorted(mgr_classes.items())),
                                      "ambassador_verdict_on_published_updates": dict(sorted(published.items())),
+                                     "ambassador_verdict_on_own_creations": dict(sorted(own_created.items())),
                                      "reprocess_runs": n_reprocess, "reprocess_runs_that_changed_the_store": n_reprocess_changed,
                                      "delayed_vdr_dag_verdicts": dict(sorted(dag_classes.items())),
                                      "scripted_step_outcomes": dict(sorted(scripted_outcomes.items())),
